@@ -37,7 +37,8 @@ META = {"C13": {
                     "name_global is only called with persistent names and name_local with per-step names, as "
                     "the generators do"],
     "probes": ["sanitised_collision", "casefold_collision", "long_name", "empty_after_sanitising",
-               "lookup_repeated", "clear_locals", "looks_generated", "compile_probe"],
+               "lookup_repeated", "clear_locals", "looks_generated", "compile_probe", "program_probe",
+               "persistent_loop_variable"],
 }}
 
 PERSISTENT_TAGS = ("<state>", "<p>", "<ret_time_id>", "<ret_time>", "<ret_state>")
@@ -52,11 +53,15 @@ ALPHA = list("abxyYXZz019_") + list("<>^*.-+%$ '") + ["é", "ß", "λ"]
 LOOKS_GENERATED = ["y_", "y__0", "localx", "local_x", "lploc_x", "lploc_x_0", "drtf_x", "global_state_y",
                    "state_y", "state_y_0", "p_y", "func_f", "x_0", "x_1", "self", "t", "dt", "numpy",
                    "refcount", "run", "shutdown", "initialize", "end", "if", "do", "real", "class", "for",
-                   "hoisted", "res1", "lploc_", "local", "_functions", "next_phase"]
+                   "hoisted", "res1", "lploc_", "local", "_functions", "next_phase",
+                   # other spellings of the generator's own (case-insensitive) Fortran names
+                   "Dagrt_ierr", "DAGRT_STATE", "Dagrt_t", "Dagrt_Nan", "DAGRT_dt"]
 TAGS = ["<state>", "<p>", "<ret_state>", "<ret_time>", "<ret_time_id>"]
 FUNC_NAMES = ["<func>f", "<func>F", "<func>f_", "<func>f^", "<func>f*", "f", "<builtin>len", "<func>y",
               "<func>" + "g" * 70, "<func>G" + "g" * 69, "run", "<func>run", "^", "*", "<>", "class", "if", "1f",
-              "None", "<func>class", "_private"]
+              "None", "<func>class", "_private",
+              # keywords behind characters that sanitising strips
+              "_class", "^class", " lambda", "<>in", "*not", "_None", "_if", "<func>_class", "<func>^in"]
 
 PY_RESERVED = {"self.t", "self.dt", "self._numpy", "self._functions", "self.next_phase",
                "self.phase_transition_table", "self.StateComputed", "self.StepCompleted", "self.StepFailed",
@@ -226,6 +231,52 @@ def compile_probe(ctx, model):
         shutil.rmtree(d, ignore_errors=True)
 
 
+def program_probe(ctx, tape, pool):
+    """End to end through the real Python generator: a pool name as loop variable and another one
+    as a temporary of the loop body.  Wherever the generator mentions a name it must use the one
+    identifier that belongs to it, so the class computes what the statements say: acc grows by
+    sum(0..3) + 4*1 = 10 per step."""
+    from pymbolic import var
+    from dagrt.codegen import PythonCodeGenerator
+    from dagrt.language import Assign, DAGCode, ExecutionPhase, YieldState
+    cands = [n for n in pool if n not in ("<t>", "<dt>", "<state>acc")]
+    if not cands:
+        return
+    lv = cands[tape.draw(len(cands), "loopvar")]
+    others = [n for n in cands if n != lv]
+    tmp = others[tape.draw(len(others), "tmpvar")] if others and tape.chance(0.7, "usetmp") else None
+    stmts = []
+    body = var("<state>acc") + var(lv)
+    deps = []
+    if tmp is not None:
+        stmts.append(Assign(id="s0", assignee=tmp, assignee_subscript=(), expression=1, depends_on=[]))
+        body = body + var(tmp)
+        deps = ["s0"]
+    else:
+        body = body + 1
+    stmts.append(Assign(id="loop", assignee="<state>acc", assignee_subscript=(), expression=body,
+                        loops=[(lv, 0, 4)], depends_on=deps))
+    stmts.append(YieldState(id="ret", time=var("<t>"), time_id="final", expression=var("<state>acc"),
+                            component_id="acc", depends_on=["loop"]))
+    code = DAGCode.from_phases_list([ExecutionPhase(name="main", next_phase="main", statements=stmts)], "main")
+    ctx.count("probe:program_probe")
+    if is_state_variable(lv):
+        ctx.count("probe:persistent_loop_variable")
+    label = "python program probe (loop variable %r, temporary %r)" % (lv, tmp)
+    ctx.decoded["program_probe"] = {"loop_variable": lv, "temporary": tmp}
+    try:
+        cls = PythonCodeGenerator(class_name="Method").get_class(code)
+        m = cls({})
+        m.set_up(t_start=0, dt_start=1, context={"acc": 0})
+        got = [ev.state_component for ev in m.run(max_steps=2) if isinstance(ev, m.StateComputed)]
+    except Exception as e:
+        raise Violation("unstable", "%s: the generated class fails with %s: %s" % (label, type(e).__name__, e),
+                        site="program:" + type(e).__name__)
+    if got != [10, 20]:
+        raise Violation("unstable", "%s: the generated class yields %r, the statements say [10, 20] (a name is "
+                        "not mapped to one identifier everywhere)" % (label, got), site="program:value")
+
+
 def sanitised(name):
     return "".join(c if (c.isascii() and (c.isalnum() or c == "_")) else "_" for c in name).lstrip("_")
 
@@ -342,6 +393,9 @@ def run_c13(ctx):
                     looked.append((ns, key))
     if do_compile:
         compile_probe(ctx, model)
+        if lang == "py":
+            with tape.span("program_probe"):
+                program_probe(ctx, tape, pool)
     keys = [k for ns, k, v in model.live() if k is not None]
     san = [sanitised(k) for k in keys]
     if len(set(san)) < len(san):
